@@ -32,12 +32,12 @@ extern "C" void h_future() {
   std::optional<fut_t> fut; fut.emplace(spawn_future(eleaf_sender{0}, *scope));
   VF_ASSERT(g_leaf_started[0], "spawn_future in an open scope did not start the operation");
   using fop_t = connect_result_t<fut_t, frec>;
-  fop_t* fop = nullptr; bool awaited = false, dropped = false, stopped = false, leaf_done = false; int stop_before_result = 0;
+  fop_t* fop = nullptr; bool awaited = false, dropped = false, stopped = false, leaf_done = false, result_ready_at_await = false; int stop_before_result = 0;
   unsigned plan = vf_param(0);          // three events, base-4 digits: 0 complete leaf, 1 await future, 2 stop, 3 drop future
   for (int k = 0; k < 3; ++k) {
     unsigned ev = plan % 4; plan /= 4;
     if (ev == 0 && leaf_running(0)) { complete_leaf(0, g_out[0], g_val[0]); leaf_done = true; }
-    else if (ev == 1 && !awaited && !dropped) { fop = new fop_t(connect(std::move(*fut), frec{})); fut.reset(); start(*fop); awaited = true; }
+    else if (ev == 1 && !awaited && !dropped) { result_ready_at_await = leaf_done; fop = new fop_t(connect(std::move(*fut), frec{})); fut.reset(); start(*fop); awaited = true; }
     else if (ev == 2 && !stopped) { stopped = true; if (awaited && !leaf_done) stop_before_result = 1; ext->request_stop(); }
     else if (ev == 3 && !awaited && !dropped) { fut.reset(); dropped = true; }
   }
@@ -46,7 +46,7 @@ extern "C" void h_future() {
   if (leaf_running(0)) { complete_leaf(0, g_out[0], g_val[0]); leaf_done = true; }
   if (awaited) {
     VF_ASSERT(R.total() == 1, "awaited future did not complete exactly once");
-    if (!stopped) {
+    if (!stopped || result_ready_at_await) {     // a result already available when the future is awaited is delivered even if stop was requested
       if (g_out[0] == 0) VF_ASSERT(R.n_value == 1 && R.v0 == g_val[0], "future did not yield the operation's value");
       if (g_out[0] == 1) VF_ASSERT(R.n_error == 1 && R.err == g_val[0], "future did not yield the operation's error");
       if (g_out[0] == 2) VF_ASSERT(R.n_done == 1, "future did not yield done");
